@@ -235,6 +235,9 @@ class MEIExporter:
         for note in chord:
             duration = self._handle_note_or_rest(note, chord_el)
         chord_el.set("dur", duration)
+        # the dots belong to the duration of the chord as well
+        if note.symbolic_duration.get("dots"):
+            chord_el.set("dots", str(note.symbolic_duration["dots"]))
 
     def _handle_note_or_rest(self, note, xml_voice_el):
         if isinstance(note, spt.Rest):
